@@ -32,7 +32,10 @@ def ts(seconds: int) -> datetime:
 
 
 def secs(stamp: datetime) -> int:
-    """Integer seconds on the naive axis of a naive datetime (pure arithmetic, zone independent)."""
+    """Integer seconds of a datetime on its OWN wall-clock axis (pure arithmetic, zone independent;
+    an aware datetime is read by its wall-clock fields, its offset is ignored)."""
+    if stamp.tzinfo is not None:
+        stamp = stamp.replace(tzinfo=None)
     d = stamp - EPOCH
     return d.days * 86400 + d.seconds
 
